@@ -9,9 +9,18 @@ pub trait Database {}
 pub struct TimedCache { _p: u8 }
 impl TimedCache {
     #[verifier::external_body] pub fn enable_clean(&self) {}
-    #[verifier::external_body] pub async fn batch_put(&self, records: &[DbRecord]) {}
-    #[verifier::external_body] pub async fn put(&self, record: &DbRecord) {}
+    // C16 (ordering contract): a record may enter the cache only if the database holds it - it was returned by a database read or
+    // accepted by a database write (knowledge token db_has, which can only be learnt from those postconditions)
+    #[verifier::external_body] pub async fn batch_put(&self, records: &[DbRecord])
+        requires forall|i: int| 0 <= i < records@.len() ==> db_has(#[trigger] records@[i])
+    {}
+    #[verifier::external_body] pub async fn put(&self, record: &DbRecord)
+        requires db_has(*record)
+    {}
 }
+
+// "the database returned this record from a read, or accepted it in a write"
+pub uninterp spec fn db_has(rec: DbRecord) -> bool;
 
 // global write permission (frame conditions are phrased as: "every record set handed to a write path was permitted")
 pub uninterp spec fn write_allowed(recs: Seq<DbRecord>) -> bool;
@@ -38,6 +47,10 @@ impl Transaction {
     pub fn batch_set(&self, records: &Vec<DbRecord>)
         requires write_allowed(records@)
     { unimplemented!() }
+    #[verifier::external_body]
+    pub fn set(&self, record: &DbRecord)
+        requires write_allowed(seq![*record])
+    { unimplemented!() }
 }
 
 #[verifier::external_body]
@@ -53,11 +66,16 @@ impl<Db: Database> DbHandle<Db> {
     pub async fn batch_set(&self, records: Vec<DbRecord>, state: DbSetState) -> (r: Result<(), StorageError>)
         requires state is TransactionCommit ==> records@.len() > 0 && records@.last() is Azks,
                  state is General ==> write_allowed(records@),
-        ensures r is Ok ==> self.db_written(records@)
+        ensures r is Ok ==> self.db_written(records@) && forall|i: int| 0 <= i < records@.len() ==> db_has(#[trigger] records@[i])
+    { unimplemented!() }
+    #[verifier::external_body]
+    pub async fn set(&self, record: DbRecord) -> (r: Result<(), StorageError>)
+        requires write_allowed(seq![record])
+        ensures r is Ok ==> db_has(record)
     { unimplemented!() }
     #[verifier::external_body]
     pub async fn get_user_state(&self, username: &AkdLabel, flag: ValueStateRetrievalFlag) -> (r: Result<ValueState, StorageError>)
-        ensures r == self.spec_user_state(username.0@, flag)
+        ensures r == self.spec_user_state(username.0@, flag), r is Ok ==> db_has(DbRecord::ValueState(r->Ok_0))
     { unimplemented!() }
     #[verifier::external_body]
     pub async fn get_user_data(&self, username: &AkdLabel) -> (r: Result<KeyData, StorageError>)
@@ -179,7 +197,7 @@ impl<Db: Database> DbHandle<Db> {
     pub uninterp spec fn spec_get<St: Storable>(&self, id: St::StorageKey) -> Result<DbRecord, StorageError>;
     #[verifier::external_body]
     pub async fn get<St: Storable>(&self, id: &St::StorageKey) -> (r: Result<DbRecord, StorageError>)
-        ensures r == self.spec_get::<St>(*id)
+        ensures r == self.spec_get::<St>(*id), r is Ok ==> db_has(r->Ok_0)
     { unimplemented!() }
 }
 // the record a read of `id` must return: the pending record if the open transaction has one, else a cache hit, else the database's
@@ -204,7 +222,8 @@ impl<Db: Database> DbHandle<Db> {
     pub uninterp spec fn spec_batch_get<St: Storable>(&self, ids: Seq<St::StorageKey>) -> Result<Seq<DbRecord>, StorageError>;
     #[verifier::external_body]
     pub async fn batch_get<St: Storable>(&self, ids: &[St::StorageKey]) -> (r: Result<Vec<DbRecord>, StorageError>)
-        ensures match r { Ok(v) => self.spec_batch_get::<St>(ids@) == Ok::<Seq<DbRecord>, StorageError>(v@), Err(e) => self.spec_batch_get::<St>(ids@) == Err::<Seq<DbRecord>, StorageError>(e) }
+        ensures match r { Ok(v) => self.spec_batch_get::<St>(ids@) == Ok::<Seq<DbRecord>, StorageError>(v@), Err(e) => self.spec_batch_get::<St>(ids@) == Err::<Seq<DbRecord>, StorageError>(e) },
+                r is Ok ==> forall|i: int| 0 <= i < r->Ok_0@.len() ==> db_has(#[trigger] r->Ok_0@[i])
     { unimplemented!() }
 }
 // provenance of one record returned by a batched get for the key list `ids` (C15: pending records win; a cache hit only for keys without a pending record;
